@@ -1,7 +1,7 @@
 (* C01/Props.v — property-level theorems of C01 over the Cluster model (coq/theories/Cluster/Model.v). *)
 From Coq Require Import List ZArith Bool Lia.
 From BLB Require Import Gen.Consts C01.Model Cluster.Proofs Cluster.Frame Cluster.Inv Cluster.Window Cluster.Attempts C01.Witness.
-From BLB Require Import Cluster.Sched Cluster.Order Cluster.Contain Cluster.Visible C01.Ladder.
+From BLB Require Import Cluster.Sched Cluster.Order Cluster.Contain Cluster.Visible Cluster.Lower C01.Ladder.
 Import ListNotations.
 Open Scope Z_scope.
 
@@ -115,65 +115,65 @@ Proof. split; [exact commit_unique_per_version | exact change_tract_stale_term].
 Print Assumptions commit_is_unique_per_version.
 
 (* ------------------------------------------------------------------ the visibility ladder *)
-(* The schedules are those accepted by the decidable predicate Sched.ok_run L (see Cluster/Sched.v for the
-   full text of ok_ev): the single-writer discipline of the property; a Write rests on a GetTracts entry,
-   a Create reaches a server only while the tract is not durable, an AckExtend names the consecutive tracts
-   ExtendBlob handed out and hosts that accepted the write; no injected probe RPC; no superseded PullTract
-   takes effect (F21); no crash in the middle of a pull; no request executed twice; and per level
-   L=1 requests are delivered or executed with a delayed reply only, L=2 adds lost replies and requests
-   failed without executing, L=3 adds tractserver restarts, L=4 adds leader changes.
-   Re-replication, fixVersion, stale caches, delayed replies and ChangeTract probes occur at every level.
-   lw_run is the lower half of the host version window checked along the run (every durable host holds a
-   copy at least at the durable version, every SetVersion to the next version is addressed to a durable
-   host): an interim hypothesis, see notes/C01.md. *)
+(* The schedules are those accepted by the decidable predicate Sched.ok_run L (Cluster/Sched.v has the full
+   text of ok_ev).  At every level: the single-writer discipline of the property (one write at a time, with a
+   fresh larger write id, non-empty; an operation ends only after its data and lookup RPCs came back; one
+   operation per client); a Write rests on a location entry from GetTracts, a Create reaches a server only
+   while the tract is not durable yet, an AckExtend names the consecutive tracts ExtendBlob handed out and hosts
+   that accepted the write; curator tasks start under fresh ids; no injected probe RPC (event 17); and the
+   carve-outs: no superseded PullTract takes effect (Sched.stale_pull, the F21 trigger), no crash in the
+   middle of a PullTract, no request executed twice.
+   Per level: L=1 requests are delivered or executed with a delayed reply only; L=2 adds lost replies and
+   requests that fail without executing; L=3 adds tractserver restarts; L=4 adds leader changes.
+   Re-replication, fixVersion, stale client caches, delayed replies and ChangeTract probes occur at every level. *)
 Definition acked_count (st : state) : Z := Z.of_nat (length (s_acked st)).
 Definition max_version (st : state) : Z := fold_right (fun '(_, (dv, _)) a => Z.max dv a) 0 (s_dtr st).
 
-(* [PARTIAL] c01_partial_no_faults - along every schedule of level 1 of Sched.ok_run that is with no lost or duplicated reply no failed request no restart no crash and no leader change but with re-replication fixVersion delayed replies and stale client caches and under the interim lower window hypothesis lw_run every byte of every blob read at any durable host at the durable version that is by the writer or by any reader that looked the tract up after the acknowledgement whichever host answers is the byte of the newest write covering it whenever that write was acknowledged and zero if no write attempt ever covered it *)
+(* [PARTIAL] c01_partial_no_faults - along every schedule of level 1 of Sched.ok_run that is with no lost or duplicated reply no failed request no restart no crash and no leader change but with re-replication fixVersion delayed replies and stale client caches every byte of every blob read at any durable host at the durable version that is by the writer or by any reader that looked the tract up after the acknowledgement whichever host answers is the byte of the newest write covering it whenever that write was acknowledged and zero if no write attempt ever covered it *)
 Theorem c01_partial_no_faults : forall evs,
-  ok_run 1 init_state evs = true -> lw_run init_state evs = true ->
+  ok_run 1 init_state evs = true ->
   forall blob tract host p, 0 <= p < TL -> vis_ok (run_state init_state evs) blob tract host p = true.
-Proof. exact (acked_visible 1). Qed.
+Proof. exact (acked_visible_run 1). Qed.
 Print Assumptions c01_partial_no_faults.
 
 Example c01_partial_no_faults_nonvacuous :
-  ok_run 1 init_state l1_ops && lw_run init_state l1_ops &&
+  ok_run 1 init_state l1_ops &&
   (3 <=? acked_count (run_state init_state l1_ops)) && (2 <=? max_version (run_state init_state l1_ops)) = true.
 Proof. vm_compute. reflexivity. Qed.
 
-(* [PARTIAL] c01_partial_lost_replies - the same statement along every schedule of level 2 which adds lost replies and requests that fail without executing to level 1 under the interim lower window hypothesis lw_run. A request executed twice is not in the alphabet yet *)
+(* [PARTIAL] c01_partial_lost_replies - the same statement along every schedule of level 2 which adds lost replies and requests that fail without executing to level 1. A request executed twice is not in the alphabet yet *)
 Theorem c01_partial_lost_replies : forall evs,
-  ok_run 2 init_state evs = true -> lw_run init_state evs = true ->
+  ok_run 2 init_state evs = true ->
   forall blob tract host p, 0 <= p < TL -> vis_ok (run_state init_state evs) blob tract host p = true.
-Proof. exact (acked_visible 2). Qed.
+Proof. exact (acked_visible_run 2). Qed.
 Print Assumptions c01_partial_lost_replies.
 
 Example c01_partial_lost_replies_nonvacuous :
-  ok_run 2 init_state l2_ops && negb (ok_run 1 init_state l2_ops) && lw_run init_state l2_ops &&
+  ok_run 2 init_state l2_ops && negb (ok_run 1 init_state l2_ops) &&
   (2 <=? acked_count (run_state init_state l2_ops)) && (2 <=? max_version (run_state init_state l2_ops)) = true.
 Proof. vm_compute. reflexivity. Qed.
 
-(* [PARTIAL] c01_partial_restart - the same statement along every schedule of level 3 which adds tractserver restarts to level 2 under the interim lower window hypothesis lw_run. A crash in the middle of PullTract is not in the alphabet because the model like the code leaves an empty copy that already carries the version *)
+(* [PARTIAL] c01_partial_restart - the same statement along every schedule of level 3 which adds tractserver restarts to level 2. A crash in the middle of PullTract is not in the alphabet because the model like the code leaves an empty copy that already carries the version *)
 Theorem c01_partial_restart : forall evs,
-  ok_run 3 init_state evs = true -> lw_run init_state evs = true ->
+  ok_run 3 init_state evs = true ->
   forall blob tract host p, 0 <= p < TL -> vis_ok (run_state init_state evs) blob tract host p = true.
-Proof. exact (acked_visible 3). Qed.
+Proof. exact (acked_visible_run 3). Qed.
 Print Assumptions c01_partial_restart.
 
 Example c01_partial_restart_nonvacuous :
-  ok_run 3 init_state l3_ops && negb (ok_run 2 init_state l3_ops) && lw_run init_state l3_ops &&
+  ok_run 3 init_state l3_ops && negb (ok_run 2 init_state l3_ops) &&
   (2 <=? acked_count (run_state init_state l3_ops)) && (4 <=? max_version (run_state init_state l3_ops)) = true.
 Proof. vm_compute. reflexivity. Qed.
 
-(* [PARTIAL] c01_acked_write_visible_except_late_repull - the same statement along every schedule of level 4 which adds leader changes so that superseded incarnations keep running their tasks. The F21 trigger is carved out as the decidable side condition Sched.stale_pull - no PullTract whose requested version is already committed executes at a server whose copy is absent or not newer than the request. Still under the interim lower window hypothesis lw_run which is why this is not FULL *)
+(* [PARTIAL] c01_acked_write_visible_except_late_repull - the same statement along every schedule of level 4 which adds leader changes so that superseded incarnations keep running their tasks. The F21 trigger is carved out as the decidable side condition Sched.stale_pull - no PullTract whose requested version is already committed executes at a server whose copy is absent or not newer than the request. There is no further hypothesis. It is tagged PARTIAL and not FULL only because two fault classes of the property are still outside the alphabet - a crash in the middle of PullTract and a request executed twice *)
 Theorem c01_acked_write_visible_except_late_repull : forall evs,
-  ok_run 4 init_state evs = true -> lw_run init_state evs = true ->
+  ok_run 4 init_state evs = true ->
   forall blob tract host p, 0 <= p < TL -> vis_ok (run_state init_state evs) blob tract host p = true.
-Proof. exact (acked_visible 4). Qed.
+Proof. exact (acked_visible_run 4). Qed.
 Print Assumptions c01_acked_write_visible_except_late_repull.
 
 Example c01_acked_write_visible_except_late_repull_nonvacuous :
-  ok_run 4 init_state l4_ops && negb (ok_run 3 init_state l4_ops) && lw_run init_state l4_ops &&
+  ok_run 4 init_state l4_ops && negb (ok_run 3 init_state l4_ops) &&
   (2 <=? acked_count (run_state init_state l4_ops)) && (3 <=? max_version (run_state init_state l4_ops)) = true.
 Proof. vm_compute. reflexivity. Qed.
 
@@ -183,15 +183,21 @@ Example d1_leaves_alphabet_at_late_pull :
   (hd 0 (nth 38 d1_ops []) =? 7) && (nth 2 (nth 38 d1_ops []) 0 =? K_PullTract) = true.
 Proof. vm_compute. reflexivity. Qed.
 
-(* [PARTIAL] hosts_contain_acked_writes_partial - invariant I1 behind the ladder - along every schedule of level 4 under lw_run every copy that a reader can be sent to now or after the next commit that is a durable host at the durable version or any copy one version ahead holds the record of every acknowledged write for each tract the write touches *)
+(* [PARTIAL] hosts_contain_acked_writes_partial - invariant I1 behind the ladder - along every schedule of level 4 every copy that a reader can be sent to now or after the next commit that is a durable host at the durable version or any copy one version ahead holds the record of every acknowledged write for each tract the write touches *)
 Theorem hosts_contain_acked_writes_partial : forall evs,
-  ok_run 4 init_state evs = true -> lw_run init_state evs = true ->
+  ok_run 4 init_state evs = true ->
   let st := run_state init_state evs in
   forall b wid W j dv H g r,
     In (b, wid, W) (s_acked st) -> tget (s_dtr st) (b, j) = Some (dv, H) -> rget (s_reps st) (g, (b, j)) = Some r ->
     (In g H /\ r_ver r = dv) \/ r_ver r = dv + 1 ->
     0 < snd (seg_of (w_off W) (w_len W) j) -> In (rec_in wid W j) (r_app r).
-Proof.
-  intros evs OK LW st. destruct (G_run 4 evs init_state OK LW G_init) as (_ & _ & _ & _ & _ & V1 & _). exact V1.
-Qed.
+Proof. exact (hosts_contain_acked 4). Qed.
 Print Assumptions hosts_contain_acked_writes_partial.
+
+(* [PARTIAL] host_version_window_lower_partial - lower half of the host version window - along every schedule of level 4 a durable host that holds a copy of the tract holds it at least at the durable version. Together with host_version_window_upper_partial a present copy of a durable host is at the durable version or one ahead. Presence itself is not claimed because a failed pull removes the local copy *)
+Theorem host_version_window_lower_partial : forall evs,
+  ok_run 4 init_state evs = true ->
+  let st := run_state init_state evs in
+  forall tk dv H h r, tget (s_dtr st) tk = Some (dv, H) -> In h H -> rget (s_reps st) (h, tk) = Some r -> dv <= r_ver r.
+Proof. exact (lower_window 4). Qed.
+Print Assumptions host_version_window_lower_partial.
